@@ -505,3 +505,83 @@ mod tests {
         });
     }
 }
+
+/// Verification hooks: public wrappers around the crate-private pool API so an
+/// external harness can drive small pools and read their counters.
+#[cfg(naijascript_verif)]
+pub mod verif {
+    use std::ptr::NonNull;
+
+    use super::{Arena, CLASS_COUNT, Pool, PoolSet, SLOT_COUNTS, SLOT_SIZES};
+
+    pub const VERIF_CLASS_COUNT: u32 = CLASS_COUNT;
+    pub const VERIF_SLOT_SIZES: [u32; CLASS_COUNT as usize] = SLOT_SIZES;
+    pub const VERIF_SLOT_COUNTS: [u32; CLASS_COUNT as usize] = SLOT_COUNTS;
+
+    pub fn verif_size_class(n: u32) -> Option<u32> {
+        super::size_class(n)
+    }
+
+    pub struct VerifPool(Pool);
+
+    impl VerifPool {
+        pub fn new(arena: &Arena, slot_size: u32, slot_count: u32) -> Self {
+            Self(Pool::new(arena, slot_size, slot_count))
+        }
+
+        pub fn alloc(&self) -> Option<NonNull<[u8]>> {
+            self.0.alloc()
+        }
+
+        /// # Safety
+        /// Same contract as `Pool::dealloc`.
+        pub unsafe fn dealloc(&self, ptr: NonNull<u8>) {
+            unsafe { self.0.dealloc(ptr) }
+        }
+
+        pub fn contains(&self, ptr: *const u8) -> bool {
+            self.0.contains(ptr)
+        }
+
+        /// (live, free, bump)
+        pub fn counters(&self) -> (u32, u32, u32) {
+            (self.0.live_count.get(), self.0.free.len(), self.0.block.bump.get())
+        }
+
+        pub fn base(&self) -> *const u8 {
+            self.0.block.base.as_ptr()
+        }
+    }
+
+    pub struct VerifPoolSet<'a>(PoolSet<'a>);
+
+    impl<'a> VerifPoolSet<'a> {
+        pub fn new(arena: &'a Arena) -> Self {
+            Self(PoolSet::new(arena))
+        }
+
+        pub fn alloc(&self, size: u32) -> NonNull<[u8]> {
+            self.0.alloc(size)
+        }
+
+        /// # Safety
+        /// Same contract as `PoolSet::dealloc`.
+        pub unsafe fn dealloc(&self, ptr: NonNull<u8>, size: u32) {
+            unsafe { self.0.dealloc(ptr, size) }
+        }
+
+        pub fn contains(&self, ptr: *const u8) -> bool {
+            self.0.contains(ptr)
+        }
+
+        /// (live, free, bump) of one class.
+        pub fn counters(&self, class: usize) -> (u32, u32, u32) {
+            let p = &self.0.pools[class];
+            (p.live_count.get(), p.free.len(), p.block.bump.get())
+        }
+
+        pub fn class_base(&self, class: usize) -> *const u8 {
+            self.0.pools[class].block.base.as_ptr()
+        }
+    }
+}
